@@ -113,6 +113,32 @@ def case_task(task):
                                          incremental_rng=rng if c.get("incremental") else None)
             if c.get("incremental"):
                 part.count("incrementally_built_trees")
+            if c.get("grafted") and f.K >= 2:
+                # the prune-regraft pattern: one subtree object grafted into two candidates, the other candidate is then
+                # edited (an extra data point added to a grafted clone); the first candidate is the tree under test
+                i = int(rng.integers(0, f.K))
+                sub = tree.get_subtree(names[i])
+                par = tree.get_parent(names[i])
+                tree.remove_subtree(sub)
+                cand_a = tree.copy()
+                cand_a.add_subtree(sub, parent=None if par == tree.root_node_name else par)
+                cand_a.update()
+                others = list(tree.nodes) + [None]
+                cand_b = tree.copy()
+                cand_b.add_subtree(sub, parent=others[int(rng.integers(0, len(others)))])
+                cand_b.update()
+                grafted = [x for x in cand_b.nodes if x not in tree.nodes]
+                extra_dp = DataPoint(n, gen.make_values(rng, 1, D, G, "moderate")[0], name="c02_%d_extra" % c["id"])
+                cand_b.add_data_point_to_node(extra_dp, grafted[int(rng.integers(0, len(grafted)))])
+                sub.update()
+                tree = cand_a
+                f2, nodes = gen.tree_to_forest(tree)
+                part.count("grafted_twice_trees")
+                if f2.key() != f.key():
+                    part.violation("a tree's data assignment changed when another tree grafted from the same subtree was "
+                                   "edited", dict(case, got=gen.key_str(f2.key())))
+                    continue
+                f, names = f2, {k: nd for k, nd in enumerate(nodes)}
             vec = monitors.node_vectors(tree)
             root = np.array(tree.data_log_likelihood)
             part.count("evaluations")
@@ -193,7 +219,7 @@ def run(ctx):
                 "over all index assignments; (b) random forests up to 12 clones, up to 8 children, 1-6 top-level clones, "
                 "D 1-4, data flat / moderate / smooth / sharply peaked (depth 1e2-1e5) / real emission grids / mixed "
                 "scales (1e-3 .. 1e6) / bit-identical twins, built bottom-up or incrementally (points added one by one, "
-                "some by way of another clone), "
+                "some by way of another clone) or by the prune-regraft pattern (one subtree grafted into two candidates, the other one edited), "
                 "G in {3,5,11,101} and {999,1000,1001,1201} straddling the direct/FFT switch, against the interval "
                 "recursion; distinct = (mode, grid, samples, data kind, canonical forest)")
     ctx.assumptions = ["floor constants 1e-100 / FFT switch at 1000 quoted by the property statement",
@@ -219,7 +245,8 @@ def run(ctx):
                               n_tops=[None, 1, 3, 6][i % 4])
         cases.append({"id": cid, "mode": "interval", "forest": f.describe(), "G": [3, 5, 11, 101][i % 4] if i % 10 else 21,
                       "D": 1 + i % 4, "kind": ["flat", "moderate", "smooth", "peaked", "binom", "emission", "scales", "twins"][i % 8],
-                      "shuffle": bool(i % 2), "warm": bool(i % 3 == 0), "incremental": bool(i % 5 in (1, 3))})
+                      "shuffle": bool(i % 2), "warm": bool(i % 3 == 0), "incremental": bool(i % 5 in (1, 3)),
+                      "grafted": bool(i % 7 == 2)})
         cid += 1
     n_big = 24 if quick else 600
     for i in range(n_big):
